@@ -21,14 +21,17 @@ def indices(s: slice, length: int) -> tuple[int, int | None, int]:
 def offset_slice_indices_lsb0(key: slice, length: int) -> slice:
     start, stop, step = indices(key, length)
     if step is not None and step < 0:
-        if stop is None:
-            new_start = start + 1
+        # The elements are start, start + step, ... in lsb0 numbering. The same elements, in the
+        # same order, are read from the msb0 position of the last one back to that of the first.
+        items = len(range(start, -1 if stop is None else stop, step))
+        if items == 0:
+            return slice(0, 0, key.step)
+        first_element = start
+        last_element = start + (items - 1) * step
+        new_start = length - 1 - last_element
+        new_stop = length - 1 - first_element - 1
+        if new_stop < 0:
             new_stop = None
-        else:
-            first_element = start
-            last_element = start + ((stop + 1 - start) // step) * step
-            new_start = length - last_element
-            new_stop = length - first_element - 1
     else:
         first_element = start
         # The last element will usually be stop - 1, but needs to be adjusted if step != 1.
